@@ -810,6 +810,11 @@ func (s *Server) startIPCPNegotiation(session *Session) {
 
 // handleIPCP handles IPCP packets
 func (s *Server) handleIPCP(session *Session, data []byte) {
+	// No IP-layer negotiation before this session's own authentication succeeded
+	if !session.Authenticated {
+		return
+	}
+
 	pkt, err := ParseLCPPacket(data)
 	if err != nil {
 		return
